@@ -83,7 +83,7 @@ func lagPolicy(t *Tape) *Policy {
 func C01Scenario() *Scenario {
 	return &Scenario{Prop: "C01", Init: func(w *World) {
 		t := w.T
-		s := NewCompositeSetup(w, GenOpts{PlainOwner: true, AllowCluster: true, AllowSSA: true, MaxWorkers: 3, MaxParents: 2, Programs: true, AvoidKnown: true, Resync: true})
+		s := NewCompositeSetup(w, GenOpts{PlainOwner: true, SameNames: true, AllowCluster: true, AllowSSA: true, MaxWorkers: 3, MaxParents: 2, Programs: true, AvoidKnown: true, Resync: true})
 		cfg, opts, parents := s.Cfg, s.Opts, s.Parents
 		b := &EnvBudget{Left: t.Pick(4, "edits")}
 		lastEditStep := 0
